@@ -5,8 +5,8 @@ import Compute.Model.GpKernels
 Driver for C20.  Requests (floats as hex bit patterns):
   rbf_p form var ls n x1 y1 … xn yn              -> = k1 … kn      (scalar forward on each pair)
   rq_p  form var alpha ls n x1 y1 … xn yn        -> = k1 … kn
-  rbf_m kind var ls rx cx <rx*cx> ry cy <ry*cy>  -> = nrows ncols <data>
-  rq_m  kind var alpha ls rx cx <..> ry cy <..>  -> = nrows ncols <data>
+  rbf_m kind var ls rx cx <rx*cx> ry cy <ry*cy>  -> = nrows ncols <data> <scalar forward at (x_i, y_j), row-major>
+  rq_m  kind var alpha ls rx cx <..> ry cy <..>  -> = nrows ncols <data> <scalar forward at (x_i, y_j), row-major>
 form ∈ {0: f64, 1: &f64}; kind ∈ {0: Vector, 1: &Vector, 2: Matrix, 3: &Matrix} (a Vector has rx = 1).
 Invalid kernel parameters -> `! panic`.
 -/
@@ -21,10 +21,12 @@ def c20Pts (kind : Nat) : P (Pts Float) := do
   let d ← pMany pFloat (r * c)
   if kind < 2 then (if r = 1 then pure (Pts.vec d) else failure) else pure (Pts.mat ⟨d, r, c⟩)
 
-def c20Mat (r : Option (Mat Float)) : String :=
+def c20Mat (r : Option (Mat Float)) (f : Float → Float → Float) (x y : Pts Float) : String :=
   match r with
   | none => panicked
-  | some m => ok s!"{m.nrows} {m.ncols} {showFloats m.data}"
+  | some m =>
+    let sc := x.points.flatMap fun a => y.points.map fun b => f a b
+    ok (" ".intercalate ([toString m.nrows, toString m.ncols] ++ (m.data ++ sc).map showFloat))
 
 def c20Step (args : List String) : String :=
   match args with
@@ -48,7 +50,7 @@ def c20Step (args : List String) : String :=
       fun (v, l, x, y) =>
         match RBF.new v l with
         | none => panicked
-        | some k => c20Mat (k.fwdM x y)
+        | some k => c20Mat (k.fwdM x y) k.fwd x y
   | "rq_m" :: rest =>
     withArgs (do
       let kind ← pNat; let v ← pFloat; let a ← pFloat; let l ← pFloat
@@ -56,7 +58,7 @@ def c20Step (args : List String) : String :=
       fun (v, a, l, x, y) =>
         match RQ.new v a l with
         | none => panicked
-        | some k => c20Mat (k.fwdM x y)
+        | some k => c20Mat (k.fwdM x y) k.fwd x y
   | _ => badOp
 
 def main (args : List String) : IO UInt32 := mainWith () (fun _ t => ((), c20Step t)) args
